@@ -247,9 +247,9 @@ def rule_resolution(ctx, r):
         captured["deps"] = deps
 
     interp = PureInterp(ctx, hooks={"attr:submit": fake_submit, "attr:update": lambda recv, *a: (recv.update(*a) if isinstance(recv, dict) else captured.setdefault("hashed", True))})
-    backend = Obj("backend", target_defaults={"a": 1, "b": None, "c": "x", "d": "dflt"})
+    backend = Obj("backend", target_defaults={"cores": 1, "memory": None, "queue": "x", "account": "dflt"})
     from .evalhelpers import target_obj
-    target = target_obj(ctx, name=NAME, spec=SPEC, working_dir=WD, options={"b": 5, "c": None, "zz": 9, "d": "mine"})
+    target = target_obj(ctx, name=NAME, spec=SPEC, working_dir=WD, options={"memory": 5, "queue": None, "nodes": 9, "account": "mine"})
     try:
         params = sb.positional_params()
         kwargs = {}
@@ -263,25 +263,27 @@ def rule_resolution(ctx, r):
         from ..loader import AnalysisError
         raise AnalysisError(f"{con}: option resolution cannot be evaluated ({exc})")
     got = captured.get("options")
-    want = {"a": 1, "b": 5, "d": "mine"}
+    want = {"cores": 1, "memory": 5, "account": "mine"}
     if got != want:
         why = []
         if got is None:
             why.append("backend.submit was not reached")
         else:
-            if "c" in got:
-                why.append(f"an option the target resolved to None comes back as {got['c']!r} (must be omitted)")
-            if "zz" in got:
+            if "queue" in got:
+                why.append(f"an option the target resolved to None comes back as {got['queue']!r} (must be omitted)")
+            if "nodes" in got:
                 why.append("an option the backend does not know reaches the scheduler")
-            if got.get("b") != 5 or got.get("d") != "mine":
+            if got.get("memory") != 5 or got.get("account") != "mine":
                 why.append("a per-target value does not override the backend default")
-            if got.get("a") != 1:
+            if got.get("cores") == 9:
+                why.append("the VALUE of an option the backend does not know (nodes=9) reaches the scheduler under the name of a similar supported option (cores)")
+            elif got.get("cores") != 1:
                 why.append("a backend default is lost")
-        r.violation(con + "::precedence", f"backend defaults {{a:1,b:None,c:'x',d:'dflt'}} + target options {{b:5,c:None,zz:9,d:'mine'}} resolve to {got}, expected {want}: "
+        r.violation(con + "::precedence", f"backend defaults {{cores:1,memory:None,queue:'x',account:'dflt'}} + target options {{memory:5,queue:None,nodes:9,account:'mine'}} resolve to {got}, expected {want}: "
                     + "; ".join(why), sb.where)
     else:
         r.ok(con + "::precedence", "defaults < target options; None removed; unknown removed", sb.where)
-    warned = any(e[0] == "log" and e[1] in ("warning", "warn") and any("zz" == a for a in e[2]) for e in interp.events)
+    warned = any(e[0] == "log" and e[1] in ("warning", "warn") and any("nodes" == a for a in e[2]) for e in interp.events)
     r.check(warned, con + "::warning", "an unknown option is dropped with a warning naming it", "an option the backend does not know is dropped without a warning", sb.where)
     r.check(captured.get("deps") == ["dep"], con + "::deps", "dependencies are passed through unchanged", "submit_backend does not pass the dependency list through to the backend", sb.where)
     # workflow-level chains
